@@ -242,8 +242,18 @@ def r_eq_len(F, V):
         key = "%s|len-then-lookup" % p.split("::")[0]
         scan = [i for i, t in b.calls() if t["f"].get("method") in ("all", "any", "fold", "try_fold") or (callee_path(t) or "").endswith("::all")]
         problems = []
+        loop_scan = None
         if not scan:
-            problems.append("no element scan found")
+            # the scan written as an explicit loop: `for x in self.iter() { if !member(x) { return false } } true`
+            for h, blocks in b.natural_loops():
+                nx = [i for i in blocks if b.term(i)["k"] == "call" and (b.term(i)["f"].get("method") == "next" or (callee_path(b.term(i)) or "").endswith("::next"))]
+                lk = [i for i in blocks if b.term(i)["k"] == "call" and (callee_path(b.term(i)) or "") in look]
+                if nx and lk:
+                    loop_scan = (h, blocks, nx)
+            if loop_scan is None:
+                problems.append("no element scan found")
+            else:
+                scan = [loop_scan[0]]
         for sc in scan:
             ok = False
             for (bb, s, S) in controlling_sources(b, sc):
@@ -262,16 +272,56 @@ def r_eq_len(F, V):
                 problems.append("the element scan is not guarded by equality of the two len() values")
         # membership through other's own lookup
         found = False
-        for bb in [b] + [cb for _, cb in _closure_bodies(F, V, b)]:
-            for i, t in bb.calls():
+        wrong_recv = False
+        for st_, cb in [(None, b)] + list(_closure_bodies(F, V, b)):
+            for i, t in cb.calls():
                 if (callee_path(t) or "") in look:
                     found = True
+                    # the receiver of the lookup is `other` (argument 2), the elements come from `self`
+                    r_, path_ = _arg_root(cb, t, 0)
+                    recv = None
+                    if cb is b:
+                        recv = r_
+                    elif st_ is not None and r_ == 1:
+                        idx_ = [x for x in path_ if x.isdigit()]
+                        ops_ = st_["rv"]["ops"]
+                        if idx_ and int(idx_[0]) < len(ops_) and ops_[int(idx_[0])]["k"] in ("copy", "move"):
+                            recv = deep_root(b, ops_[int(idx_[0])]["p"])[0]
+                    if recv == 1:
+                        wrong_recv = True
+        if wrong_recv:
+            problems.append("membership is tested in `self` instead of in `other` (self.%s of an element of self is always true): any two collections of the same length compare equal" % look[0].split("::")[-1])
         if not found:
             problems.append("membership in `other` is not tested through other's own lookup (%s)" % "/".join(x.split("::")[-1] for x in look))
         # the verdict `true` can only come out of the element scan: every definition of the return value is
         # the constant false or the scan's own result (an identity / pointer-equality shortcut answers `true`
         # for a map holding a value with non-reflexive ==, e.g. NaN, which the element-wise definition rejects)
         for val, blk in _result_defs(b):
+            if val == "true" and loop_scan is not None:
+                # `true` only after the loop has run to exhaustion: with the None edges of the loop's next() removed the
+                # block that sets it is unreachable
+                h_, blocks_, nx_ = loop_scan
+                cut = set()
+                for j in blocks_:
+                    if _is_exhaustion_branch(b, j):
+                        tj = b.term(j)
+                        vals = [v for v, _ in tj["targets"]]
+                        for v, x in tj["targets"]:
+                            if v == 0:
+                                cut.add((j, x))
+                        if 0 not in vals and 1 in vals and tj.get("otherwise") is not None:
+                            cut.add((j, tj["otherwise"]))
+                seen_, work_ = {0}, [0]
+                while work_:
+                    x = work_.pop()
+                    for y in b.nsucc[x]:
+                        if (x, y) in cut or y in seen_:
+                            continue
+                        seen_.add(y)
+                        work_.append(y)
+                if blk in seen_ or not cut:
+                    problems.append("eq returns `true` on a path that does not come out of the element-by-element scan (a shortcut): == must be decided by the keys and values alone")
+                continue
             if val == "true":
                 problems.append("eq returns `true` on a path that does not come out of the element-by-element scan (a shortcut): == must be decided by the keys and values alone")
             elif val == "call":
